@@ -4,6 +4,7 @@ import (
 	"fmt"
 	"math/big"
 	"strings"
+	"sync"
 
 	"github.com/llir/llvm/asm"
 	"github.com/llir/llvm/ir"
@@ -141,7 +142,7 @@ func runC09(c *fw.Check) {
 	if !c.Quick() {
 		maxW, hexLen = 16, 16
 	}
-	c.Rule = fmt.Sprintf("EXHAUSTIVE for widths 1..%d: every value in [-2^(w-1), 2^w-1] in every accepted spelling (signed decimal, u0x/s0x upper/lower/leading zeros, true/false) against big-integer arithmetic, and Ident()->NewIntFromString identity; STRUCTURED for widths 17..64,65,127,128,129,1024,1025: 0,+-1,+-2^k,2^k+-1,min,max and ALL hex strings of length <=%d over every 1- and 2-digit alphabet (the printer's hex/decimal choice depends only on digit multisets); the same literals through asm.ParseString (batched globals) and the printed module through llvm-as|llvm-dis against a reference text. Widths are visited in one process, so a literal text met at one width is met again at others (history). distinct = distinct (width,value,spelling) triples.", maxW, hexLen)
+	c.Rule = fmt.Sprintf("EXHAUSTIVE for widths 1..%d: every value in [-2^(w-1), 2^w-1] in every accepted spelling (signed decimal, u0x/s0x upper/lower/leading zeros, true/false) against big-integer arithmetic, and Ident()->NewIntFromString identity; STRUCTURED for widths 17..64,65,127,128,129,1024,1025: 0,+-1,+-2^k,2^k+-1,min,max and ALL hex strings of length <=%d over every 1- and 2-digit alphabet (the printer's hex/decimal choice depends only on digit multisets); the same literals through asm.ParseString (batched globals) and the printed module through llvm-as|llvm-dis against a reference text. PLUS print / edit-the-big-integer-in-place / print histories for all ordered value pairs of widths 1..5 and boundary pairs of 8 wider widths x 6 editing operations. Widths are visited in one process, so a literal text met at one width is met again at others (history). distinct = distinct (width,value,spelling) triples.", maxW, hexLen)
 	// Part A: exhaustive small widths.
 	type job struct {
 		w      uint64
@@ -253,6 +254,107 @@ func runC09(c *fw.Check) {
 	})
 	// Part C: the same through the assembly parser and LLVM.
 	c09asm(c, maxW)
+	// Part D: histories on ONE constant.
+	c09histories(c)
+}
+
+// c09histories: the literal printed for a constant depends on its CURRENT value only. For every
+// width of a family and every ordered pair (v1, v2) of a value set per width (all values for widths
+// <=5, boundary values and hexadecimal-looking values above): a constant holding v1 is printed
+// (Ident and String), its exported big integer is changed IN PLACE to v2 by each of six editing
+// operations (Set, SetInt64/SetString, Add of the difference, Neg+Add, Lsh/Rsh+Add, replacing
+// the pointer), and it is printed again: the text must be what a fresh constant of value v2 prints
+// and must parse back to v2.
+func c09histories(c *fw.Check) {
+	type wv struct {
+		w    uint64
+		vals []*big.Int
+	}
+	var fam []wv
+	for _, w := range []uint64{1, 2, 3, 4, 5, 8, 13, 16, 32, 33, 64, 65, 128} {
+		var vals []*big.Int
+		seen := map[string]bool{}
+		add := func(v *big.Int) {
+			if v.Cmp(new(big.Int).Neg(pow2(w-1))) < 0 || v.Cmp(new(big.Int).Sub(pow2(w), big1)) > 0 || seen[v.String()] {
+				return
+			}
+			seen[v.String()] = true
+			vals = append(vals, v)
+		}
+		if w <= 5 {
+			for v := -(int64(1) << (w - 1)); v <= (int64(1)<<w)-1; v++ {
+				add(big.NewInt(v))
+			}
+		} else {
+			for _, v := range []int64{0, 1, -1, 7, 9, 255, 256, 4095, 4096, 4097, 0x1000, 0x8000, 0xFFFF, 0x10000, 123456789, 0x7FFFFFFF, 0x80000000, 0xFFFFFFFF, 0x100000000, -4096, -65536} {
+				add(big.NewInt(v))
+			}
+			add(new(big.Int).Sub(pow2(w), big1))
+			add(new(big.Int).Neg(pow2(w - 1)))
+			add(pow2(w - 1))
+			add(new(big.Int).Sub(pow2(w-1), big1))
+			if w > 16 {
+				add(new(big.Int).Lsh(big.NewInt(0xFF), uint(w-12)))
+				add(new(big.Int).Lsh(big.NewInt(1), uint(w-2)))
+			}
+		}
+		fam = append(fam, wv{w, vals})
+	}
+	edits := []struct {
+		name string
+		do   func(k *constant.Int, v1, v2 *big.Int)
+	}{
+		{"X.Set", func(k *constant.Int, v1, v2 *big.Int) { k.X.Set(v2) }},
+		{"X.SetString", func(k *constant.Int, v1, v2 *big.Int) { k.X.SetString(v2.String(), 10) }},
+		{"X.Add(difference)", func(k *constant.Int, v1, v2 *big.Int) { k.X.Add(k.X, new(big.Int).Sub(v2, v1)) }},
+		{"X.Neg+Add", func(k *constant.Int, v1, v2 *big.Int) { k.X.Neg(k.X); k.X.Add(k.X, new(big.Int).Add(v2, v1)) }},
+		{"X.Lsh+Rsh+Add", func(k *constant.Int, v1, v2 *big.Int) {
+			k.X.Lsh(k.X, 3)
+			k.X.Rsh(k.X, 3)
+			k.X.Add(k.X, new(big.Int).Sub(v2, v1))
+		}},
+		{"X = new pointer", func(k *constant.Int, v1, v2 *big.Int) { k.X = new(big.Int).Set(v2) }},
+	}
+	var nmu sync.Mutex
+	total := int64(0)
+	fw.ParallelFor(len(fam), func(fi int) {
+		w, vals := fam[fi].w, fam[fi].vals
+		typ := types.NewInt(w)
+		n := int64(0)
+		for _, v1 := range vals {
+			for _, v2 := range vals {
+				if v1.Cmp(v2) == 0 {
+					continue
+				}
+				var want, wantS string
+				if p := fw.Try(func() {
+					f := &constant.Int{Typ: typ, X: new(big.Int).Set(v2)}
+					want, wantS = f.Ident(), f.String()
+				}); p != "" {
+					continue // first prints are Part A/B's subject
+				}
+				for _, e := range edits {
+					var got, gotS string
+					k := &constant.Int{Typ: typ, X: new(big.Int).Set(v1)}
+					p := fw.Try(func() {
+						_ = k.Ident()
+						_ = k.String()
+						e.do(k, v1, v2)
+						got, gotS = k.Ident(), k.String()
+					})
+					n++
+					if p != "" || got != want || gotS != wantS {
+						c.Violation("int/history/print-after-in-place-edit/"+c09class(w), c09case{Width: w, Value: v2.String(), Lit: got, Got: want, What: fmt.Sprintf("constant printed as value %s, then edited in place to %s by %s: prints %q / %q, a fresh constant of that value prints %q / %q %s", v1, v2, e.name, got, gotS, want, wantS, p)})
+					}
+				}
+			}
+		}
+		c.DistinctN(n)
+		nmu.Lock()
+		total += n
+		nmu.Unlock()
+	})
+	c.Extra["print_edit_print_histories"] = total
 }
 
 // c09asm batches literals as globals, checks asm's reading, and compares LLVM's reading of the
